@@ -420,3 +420,59 @@ def c14_r9(ctx):
                detail="; ".join("%s (line %d) under `%s`" % b for b in bad[:3]))
     if n < 8:
         raise AnalysisError("only %d per-segment hooks found" % n)
+
+
+@rule("C14", "R10", "K1", "a per-search counter survives the segment boundaries",
+      min_instances=1,
+      clause="For every collector class: an attribute that prepare() (run once per search) sets to 0 and a per-segment method "
+             "(collect_matches, collect, set_subsearcher, finish is excluded) stores again must be stored as an accumulation -- "
+             "`self.a += n`, an expression that reads self.a, or a local whose only plain binding in the method is `v = self.a` (every "
+             "other change being an augmented assignment). Re-starting it from a constant reports the last segment's count for the whole "
+             "search (Results.filtered_count, collapsed counts).")
+def c14_r10(ctx):
+    prog = ctx.prog
+    base = prog.cls("collectors.Collector")
+    n = 0
+    for K in [base] + prog.subclasses(base, strict=True):
+        prep = K.methods.get("prepare")
+        if prep is None:
+            continue
+        counters = set()
+        for st in ast.walk(prep.node):
+            if isinstance(st, ast.Assign) and isinstance(st.value, ast.Constant) and st.value.value == 0 and not isinstance(st.value.value, bool):
+                for t in st.targets:
+                    if norm.canon(t).startswith("self.") and isinstance(t, ast.Attribute):
+                        counters.add(t.attr)
+        for m in ("collect_matches", "collect", "set_subsearcher"):
+            f = K.methods.get(m)
+            if f is None:
+                continue
+            an = norm.assigned_names(f.node)
+            for st in ast.walk(f.node):
+                if isinstance(st, ast.AugAssign) and isinstance(st.target, ast.Attribute) and norm.canon(st.target.value) == "self" \
+                        and st.target.attr in counters:
+                    n += 1
+                    ctx.saw(f)
+                    ctx.ob(f, True, "self.%s is accumulated in place" % st.target.attr, loc=ctx.nodeloc(f, st))
+                if not isinstance(st, ast.Assign):
+                    continue
+                for t in st.targets:
+                    if not (isinstance(t, ast.Attribute) and norm.canon(t.value) == "self" and t.attr in counters):
+                        continue
+                    n += 1
+                    ctx.saw(f)
+                    me = "self." + t.attr
+                    reads_self = any(norm.canon(x) == me for x in ast.walk(st.value) if isinstance(x, ast.Attribute))
+                    ok = reads_self
+                    if not ok:
+                        locs = [x.id for x in ast.walk(st.value) if isinstance(x, ast.Name)]
+                        for v in locs:
+                            defs = [d for d in an.get(v, [])]
+                            plain = [d for d in defs if d is not None]
+                            if plain and all(isinstance(d, ast.Attribute) and norm.canon(d) == me for d in plain):
+                                ok = True
+                    ctx.ob(f, ok, "self.%s is stored as an accumulation of its previous value" % t.attr,
+                           detail="stored value `%s` does not start from self.%s: the count of the last segment replaces the total"
+                                  % (norm.canon(st.value), t.attr) if not ok else "", loc=ctx.nodeloc(f, st))
+    if n < 1:
+        raise AnalysisError("no per-search counter stored by a per-segment collector method")
